@@ -9,7 +9,7 @@ from . import store as ST
 from .store import Row, same_rows_as_sets, same_rows_in_order, api_rows, row_of_event
 
 PROP = "C04"
-OPS = ["insert", "upsert_one", "upsert_many", "replace", "replace_last", "delete", "update_bucket", "delete_bucket", "failing_bulk_insert_with_pending_writes"]
+OPS = ["insert", "upsert_one", "upsert_many", "replace", "replace_last", "delete", "update_bucket", "delete_bucket", "failing_bulk_insert_with_pending_writes", "replace_reusing_event_object"]
 
 
 def h_frame(x, bk, op, na, nb):
@@ -22,6 +22,12 @@ def h_frame(x, bk, op, na, nb):
     seq = x.zint("seq", 0, 2 * 10**6) if bk != "memory" else None
     ds = be.make(x, {"A": A, "B": B}, seq=seq)
     try:
+        shared_ev = None
+        if op == "replace_reusing_event_object":
+            extra = ST.sym_rows(x, "x", 1, ids=False)[0]
+            shared_ev = ST.event_of_row(x, extra)
+            ds["B"].replace(x.wrap(B[0].id), shared_ev)
+            B = [Row(B[0].id, extra.start, extra.dur, extra.tag)] + B[1:]
         if op == "failing_bulk_insert_with_pending_writes":
             # B gets a write that is still buffered (not yet committed on the lazily committing store) ...
             extra = ST.sym_rows(x, "x", 1, ids=False)[0]
@@ -52,6 +58,9 @@ def h_frame(x, bk, op, na, nb):
                 ds.update_bucket("A", type_id="t2", client="c2", hostname="h2", name="n2", data={"k": 2})
             elif op == "delete_bucket":
                 ds.delete_bucket("A")
+            elif op == "replace_reusing_event_object":
+                # the caller reuses one Event object: first for B (before the snapshot was taken), now for A
+                b.replace(x.wrap(A[0].id), shared_ev) if A else None
             elif op == "failing_bulk_insert_with_pending_writes":
                 # ... then a bulk insert into A is rejected (second event is not JSON-serialisable)
                 bad = C.mk_event(x, new[1].start, new[1].dur, {"tag": x.wrap(new[1].tag), "bad": {1, 2}}, aligned=False)
